@@ -40,6 +40,7 @@ class DefaultFormatter(BaseFormatter):
         "_line_endings",
         "_decimal_places",
         "_comment_template",
+        "_comment_delimiters",
         "_valid_axes",
     )
 
@@ -172,6 +173,12 @@ class DefaultFormatter(BaseFormatter):
             Formatted comment string
         """
 
+        # Line breaks and the delimiters of the comment itself would end
+        # the comment early and turn the rest of the text into commands
+
+        for symbols in ("\r", "\n", *self._comment_delimiters):
+            text = text.replace(symbols, " ")
+
         return self._comment_template.format(text)
 
     @typechecked
@@ -243,6 +250,8 @@ class DefaultFormatter(BaseFormatter):
         if open_symbols in COMMENT_OPENINGS:
             index = COMMENT_OPENINGS.index(open_symbols)
             end_symbols = COMMENT_ENDINGS[index]
+            self._comment_delimiters = (open_symbols, end_symbols)
             return f"{open_symbols} {{}} {end_symbols}"
 
+        self._comment_delimiters = ()
         return f"{open_symbols} {{}}"
